@@ -97,6 +97,12 @@ func c16PoolOnly(need map[int]bool) []geojson.Object {
 			return geojson.NewPolygon(must(holed, idx1).(*geojson.Polygon).Base().Move(0.5, 0.5))
 		},
 		func() geojson.Object { return geojson.NewCircle(P(20, -30), 50000, 9) },
+		// objects past the default thresholds (64): a polygon with 70 holes, a
+		// collection of 70 features, a line of 100 positions
+		func() geojson.Object { return must(c16ManyHoles, nil) },
+		func() geojson.Object { return must(c16ManyFeatures, nil) },
+		func() geojson.Object { return must(c16LongLine, nil) },
+		func() geojson.Object { return geojson.NewPoint(P(8.5, 6.5)) }, // inside a hole of #15, on a feature of #16
 	}
 	out := make([]geojson.Object, len(ctors))
 	for i, c := range ctors {
@@ -106,6 +112,21 @@ func c16PoolOnly(need map[int]bool) []geojson.Object {
 	}
 	return out
 }
+
+var c16ManyHoles, c16ManyFeatures, c16LongLine = func() (string, string, string) {
+	var holes, feats, pts []string
+	for i := 0; i < 70; i++ {
+		x, y := float64(2+(i%10)*9), float64(2+(i/10)*9)
+		holes = append(holes, fmt.Sprintf("[[%g,%g],[%g,%g],[%g,%g],[%g,%g],[%g,%g]]", x, y, x+5, y, x+5, y+5, x, y+5, x, y))
+		feats = append(feats, fmt.Sprintf(`{"type":"Feature","geometry":{"type":"Point","coordinates":[%g,%g]},"properties":{"i":%d}}`, x+2.5, y+2.5, i))
+	}
+	for i := 0; i < 100; i++ {
+		pts = append(pts, fmt.Sprintf("[%g,%g]", float64(i%10)*9.5, float64(i/10)*7+float64(i%2)))
+	}
+	return `{"type":"Polygon","coordinates":[[[0,0],[100,0],[100,70],[0,70],[0,0]],` + strings.Join(holes, ",") + `]}`,
+		`{"type":"FeatureCollection","features":[` + strings.Join(feats, ",") + `]}`,
+		`{"type":"LineString","coordinates":[` + strings.Join(pts, ",") + `]}`
+}()
 
 type c16Call struct {
 	Method   string
@@ -134,6 +155,10 @@ var c16Unary = []string{"JSON", "Rect", "ForEach", "Spatial.Within*", "Collectio
 var c16Binary = []string{"Contains", "Within", "Intersects", "Distance"}
 var c16Args = []int{4, 7, 11, 0, 5, 10}
 
+// receivers 15..17 are the big objects: they take part with cheap calls only
+// (point arguments), since every library step is a scheduling point
+var c16BigArgs = []int{18}
+
 func c16Calls(npool int, thorough bool) []c16Call {
 	un, ar := c16Unary[:7], c16Args[:3]
 	if thorough {
@@ -142,10 +167,24 @@ func c16Calls(npool int, thorough bool) []c16Call {
 	var out []c16Call
 	for r := 0; r < npool; r++ {
 		for _, m := range un {
-			if (m == "Collection" && (r < 8 || r > 11)) || (m == "Circle" && r != 7 && r != 14) || (m == "BaseSeries" && !(r >= 2 && r <= 5 || r == 13)) {
+			if r >= 15 && !(m == "Collection" && r == 16) && !(m == "Rect" && r <= 17) {
+				continue // big objects: only cheap unary calls
+			}
+			if (m == "Collection" && ((r < 8 || r > 11) && r != 16)) || (m == "Circle" && r != 7 && r != 14) || (m == "BaseSeries" && !(r >= 2 && r <= 5 || r == 13)) {
 				continue // method does nothing on this kind
 			}
 			out = append(out, c16Call{Method: m, Recv: r, Arg: -1})
+		}
+		if r >= 15 {
+			if r <= 17 {
+				for _, m := range []string{"Contains", "Intersects"} {
+					for _, a := range c16BigArgs {
+						out = append(out, c16Call{Method: m, Recv: r, Arg: a})
+					}
+				}
+				out = append(out, c16Call{Method: "Within", Recv: 18, Arg: r})
+			}
+			continue
 		}
 		for _, m := range c16Binary {
 			for _, a := range ar {
